@@ -234,6 +234,45 @@ def zero_size_family():
     return out
 
 
+# ----------------------------------------------------------------------------- directed family: errors under a Note parent
+NOTE_RULES = ("#ruledef\n{\n    ld {v: u8} => 0x10 @ v\n    chk {v} => { assert(v > 5), 0x20 @ v`8 }\n    amb {v} => 0x30 @ v`8\n    amb {w} => 0x31 @ w`8\n"
+              "    outer {v} => asm { ld {v} }\n    deep {v} => asm { outer {v} }\n    wide {v: u16} => 0x40 @ v\n}\n")
+# (name, local value, body of the asm block).  `{y}` is a substitution: eval_asm opens the Note `match attempted: ...`
+NOTE_BODIES = [
+    ("no_match", "1", "st {y}"), ("no_match_second", "1", "ld {y}\n        st {y}"), ("out_of_range", "300", "ld {y}"),
+    ("rule_assert_fails", "1", "chk {y}"), ("ambiguous", "1", "amb {y}"), ("unknown_symbol", "1", "ld {y} + nosuch"),
+    ("nested_out_of_range", "300", "outer {y}"), ("nested_twice_out_of_range", "300", "deep {y}"), ("no_match_no_subst", "1", "st 1"),
+    ("subst_undefined", "1", "ld {q}"), ("no_match_two_substs", "1", "st {y}, {y}"), ("valid", "1", "ld {y}"), ("valid_nested", "2", "deep {y}"),
+    ("forward_label", "1", "ld {y}\n        ld later"), ("division_by_zero", "0", "ld 1 / {y}"), ("empty", "1", ""),
+]
+# (name, program around the block expression @B@)
+NOTE_CONTEXTS = [
+    ("constant", "x = @B@\n#d8 x`8\n"), ("constant_unused", "#d8 1\nx = @B@\n"), ("constant_sum", "x = 1 + @B@\n#d8 1\n"),
+    ("constant_nested_block", "x =\n{\n    z = @B@\n    z\n}\n#d8 1\n"), ("local_constant", "l:\n.x = @B@\n#d8 1\n"),
+    ("res", "#d8 1\n#res @B@\n"), ("addr", "#addr @B@\n#d8 1\n"), ("align", "#d8 1\n#align @B@\n"),
+    ("assert", "#d8 1\n#assert @B@ == 0\n"), ("if", "#if @B@ == 0\n{\n    #d8 1\n}\n#d8 2\n"), ("if_const", "c = @B@\n#if c == 0\n{\n    #d8 1\n}\n"),
+    ("data", "#d8 (@B@)`8\n"), ("data_unsized", "#d @B@\n"), ("fn_body", "#fn f() => @B@\n#d8 f()`8\n"), ("fn_in_constant", "#fn f() => @B@\nx = f()\n#d8 1\n"),
+    ("instruction_argument", "ld (@B@)`8\n"), ("bankdef_field", "#bankdef b { #addr @B@, #size 8, #outp 0 }\n#d8 1\n"),
+    ("after_label_forward", "x = @B@\n#d8 1\nlater:\n"), ("ternary", "x = 1 == 1 ? @B@ : 0\n#d8 1\n"),
+]
+
+
+def note_parent_family():
+    """[(label, files, entry)]: an asm block that substitutes a local, evaluated in every context an expression can stand in
+    (most of them OUTSIDE any instruction / data / function context, where the outermost open parent is the Note
+    `match attempted`), x what goes wrong inside it.  The full product, the same on every run."""
+    out = []
+    for (cname, ctx) in NOTE_CONTEXTS:
+        for (bname, val, body) in NOTE_BODIES:
+            block = "{\n    y = %s\n    asm\n    {\n        %s\n    }\n}" % (val, body)
+            src = NOTE_RULES + ctx.replace("@B@", block)
+            out.append(("gen:note_parent/%s/%s" % (cname, bname), {"main.asm": src.encode("utf-8")}, "main.asm"))
+            if bname in ("no_match", "out_of_range", "valid"):
+                src1 = NOTE_RULES + ctx.replace("@B@", "{ y = %s\n asm { %s } }" % (val, body))
+                out.append(("gen:note_parent/%s/%s/compact" % (cname, bname), {"main.asm": src1.encode("utf-8")}, "main.asm"))
+    return out
+
+
 # ----------------------------------------------------------------------------- directed family: machine-word extremes
 def word_extremes():
     """machine-word boundaries and their neighbours, positive and negative"""
@@ -579,6 +618,13 @@ def verdict_library(d):
         return "no output and no error diagnostic (silent failure; %s message(s) in the report)" % d.get("M")
     if not out and not err:
         return "no output although AssemblyResult.error is not set"
+    return has_errors_mismatch(d)
+
+
+def has_errors_mismatch(d):
+    """Report::has_errors must say what the message tree says: true iff some message carries an Error at any depth"""
+    if d.get("hook") == "1" and "H" in d and (d["H"] == "1") != (int(d["E"]) > 0):
+        return "Report::has_errors() = %s but %s message(s) of the report carry an error" % (d["H"], d["E"])
     return None
 
 
@@ -605,7 +651,7 @@ def verdict_driver(d, cmd, faults):
             return "drive returned Ok but wrote %r, requested %r" % ([n for n, _, _ in w], exp)
         if not all(ok for _, _, ok in w):
             return "drive returned Ok although a write failed"
-        return None
+        return has_errors_mismatch(d)
     # ERR
     if e == 0:
         return "drive returned Err without any error diagnostic (%s message(s))" % d.get("M")
@@ -618,7 +664,7 @@ def verdict_driver(d, cmd, faults):
         exp = cmd.expected_writes()
         if [n for n, _, _ in w] != exp[:len(w)]:
             return "writes %r are not a prefix of the requested %r" % ([n for n, _, _ in w], exp)
-    return None
+    return has_errors_mismatch(d)
 
 
 MEM_LIMIT_KB = 4 * 1024 * 1024
@@ -728,7 +774,7 @@ def verdict_real(res, cmd, unwritable=(), files=None, stdout_lost=False, stderr_
     rc = res["rc"]
     err = ANSI.sub(b"", res["stderr"])
     out = ANSI.sub(b"", res["stdout"])
-    nerr = len(re.findall(rb"^error:", err, re.M))
+    nerr = len(re.findall(rb"^[ \t]*(?:\+ )?error:", err, re.M))      # also an error printed underneath a `note:` header
     if rc is not None and rc < 0:
         return "killed by signal %d%s" % (-rc, " (stack overflow)" if b"overflowed its stack" in err else "")
     if rc == 134 or b"memory allocation" in err or b"capacity overflow" in err:
